@@ -323,58 +323,76 @@ def check(cx):
     r6 = cx.rule('R13.6', 'free text last, after " :"', floor=10, kind='template')
     frf = cx.fn('fmt', "reply::Reply<'a> as std::fmt::Display")
     wr = cx.walk(frf, args=[P('self'), P('f')], key='c13')
-    fmts = [e for e in wr.events if e.kind == 'format']
+    FPARAM = P('f')
+
+    def variant_outputs(v):
+        """what Display writes for Reply::<v>, as [(events, pieces)] per feasible case: every write to the formatter on the paths of
+           that variant, in order, concatenated (one `write!`, several, `write_str`, helpers taking the numeric as a parameter ..)"""
+        isv = Atom(('is', P('self'), v))
+        evs = [e for e in wr.events if e.kind == 'call' and e.data['name'] in ('write_fmt', 'write_str', 'write_char', 'pad')
+               and e.data['args'] and e.data['args'][0] == FPARAM and any(a == ('is', P('self'), v) for a in atoms(e.pc))]
+        if not evs:
+            return []
+        parts = tuple(('arg', i) for i in range(len(evs)))
+        # a write under a further condition is in or out: express it as a conditional piece
+        vals = tuple(sym.mk_ite(rename(e.pc, lambda a_: T if a_ == ('is', P('self'), v) else Atom(a_)), e.data['args'][1], ('lit', ''))
+                     if len(e.data['args']) > 1 else ('lit', '') for e in evs)
+        cases_ = string_cases(wr, ('fmt', parts) + vals, isv)
+        return [(evs, ps) for c_, ps in cases_]
+
     for variant, fld in FREE_TEXT.items():
-        mine = [e for e in fmts if any(a == ('is', P('self'), variant) for a in atoms(e.pc))]
+        outs = variant_outputs(variant)
         r6.instance('Reply::%s.%s' % (variant, fld))
-        if not mine:
+        if not outs:
             r6.violation('Reply::fmt|%s|missing' % variant, 'no template for %s' % variant, loc=frf)
             continue
-        for e in mine:
-            pieces, args = e.data['pieces'], e.data['args']
-            idx = [i for i, a in enumerate(args) if a == ('vfield', P('self'), variant, fld)]
-            ph = [p for p in pieces if not isinstance(p, str)]
-            ok = bool(idx) and ph and ph[-1][1] == idx[-1] and not isinstance(pieces[-1], str)
+        for evs, ps in outs:
+            FT = ('vfield', P('self'), variant, fld)
+            if FT not in ps:
+                continue        # a case of the template that does not show the field (its absence is steered by another field)
+            ok = ps[-1] == FT
             if ok:
-                # the literal text before the last placeholder contains " :" with no later free-text placeholder
-                pos = len(pieces) - 1
-                before = ''.join(p if isinstance(p, str) else '\x00' for p in pieces[:pos])
+                before = ''.join(x[1] if (x[0] == 'lit' and isinstance(x[1], str)) else '\x00' for x in ps[:-1])
                 colon = before.rfind(' :')
                 ok = colon >= 0 and (before[colon + 2:].count('\x00') == 0 or variant == 'RplWhoReply352')
             if not ok:
                 r6.violation('Reply::fmt|%s|%s' % (variant, fld), 'the free-text field %s of %s is not the last parameter introduced by " :"'
-                             % (fld, variant), loc=cx.loc(e.node), template=str(pieces))
+                             % (fld, variant), loc=cx.loc(evs[-1].node), template=' + '.join(show_term(x) for x in ps)[:200])
+        if not any(('vfield', P('self'), variant, fld) in ps for evs, ps in outs):
+            r6.violation('Reply::fmt|%s|%s' % (variant, fld), 'the free-text field %s of %s is never shown' % (fld, variant), loc=frf)
     # ---------------------------------------------------------------- R13.11 numeric / client / field coverage of every reply
     r11 = cx.rule('R13.11', 'reply templates: numeric, client, all fields', floor=100, kind='table-agreement')
     import re as _re
     for vdef in prog.adts['reply::Reply']['variants']:
         v = vdef['name']
-        mine = [e for e in fmts if any(a == ('is', P('self'), v) for a in atoms(e.pc))]
+        outs = variant_outputs(v)
         num = _re.search(r'(\d{3})$', v)
         r11.instance('Reply::%s' % v)
-        if not mine or not num:
+        if not outs or not num:
             r11.violation('Reply::fmt|%s|no-template' % v, 'reply %s has no template / no numeric in its name' % v, loc=frf)
             continue
         used = set()
-        for e in mine:
-            pieces, args = e.data['pieces'], e.data['args']
-            head = pieces[0] if isinstance(pieces[0], str) else ''
-            ph = [x for x in pieces if not isinstance(x, str)]
-            first = args[ph[0][1]] if ph else None
+        for evs, ps in outs:
+            head = ps[0][1] if ps and ps[0][0] == 'lit' and isinstance(ps[0][1], str) else ''
+            nonlit = [x for x in ps if not (x[0] == 'lit' and isinstance(x[1], str))]
+            first = nonlit[0] if nonlit else None
             if not head.startswith(num.group(1) + ' '):
-                r11.violation('Reply::fmt|%s|numeric' % v, 'reply %s is sent with the numeric %r' % (v, head[:4]), loc=cx.loc(e.node))
+                r11.violation('Reply::fmt|%s|numeric' % v, 'reply %s is sent with the numeric %r' % (v, head[:4]), loc=cx.loc(evs[0].node))
             if first != ('vfield', P('self'), v, 'client'):
-                r11.violation('Reply::fmt|%s|client' % v, 'the first parameter of reply %s is not the client' % v, loc=cx.loc(e.node))
-            for a in args:
-                for t in subterms(a):
+                r11.violation('Reply::fmt|%s|client' % v, 'the first parameter of reply %s is not the client' % v, loc=cx.loc(evs[0].node))
+            for x in ps:
+                for t in subterms(x):
                     if isinstance(t, tuple) and len(t) == 4 and t[0] == 'vfield' and t[2] == v:
                         used.add(t[3])
-        # fields that only steer the template (tested in its path condition) count as used
-        for e in mine:
-            for a in atoms(e.pc):
-                for t in subterms(a):
+            # fields that only steer the template (tested in its path condition) count as used
+            for e in evs:
+                for t in subterms(e.data['args'][1]) if len(e.data['args']) > 1 else ():
                     if isinstance(t, tuple) and len(t) == 4 and t[0] == 'vfield' and t[2] == v:
                         used.add(t[3])
+                for a in atoms(e.pc):
+                    for t in subterms(a):
+                        if isinstance(t, tuple) and len(t) == 4 and t[0] == 'vfield' and t[2] == v:
+                            used.add(t[3])
         missing = [f['name'] for f in vdef['fields'] if f['name'] not in used]
         if missing:
             r11.violation('Reply::fmt|%s|unused-field|%s' % (v, ','.join(missing)), 'reply %s never shows its field(s) %s' % (v, ', '.join(missing)),
